@@ -220,6 +220,11 @@ def process_all(progs: list[dict], opts: dict, nproc: int = NCPU) -> list[dict]:
 # --------------------------------------------------------------------------
 # TLC over batches of instances
 
+# the TLC runs here are many and short: C1-only JIT and few GC threads cut
+# their CPU time to a third (measured), which matters when 16 JVMs run at once
+JVM = {"JAVA_TOOL_OPTIONS": "-XX:TieredStopAtLevel=1 -XX:ParallelGCThreads=2"}
+
+
 _RE_T = re.compile(r'^<<"T", "((?:[^"\\]|\\.)*)", "([^"]*)">>$')
 _RE_S = re.compile(r'^<<"S", "((?:[^"\\]|\\.)*)", (".*")>>$')
 
@@ -242,7 +247,7 @@ def model_check(insts: list[dict], cfg: str = "DistExec.cfg", timeout: float = 1
         files.append(p)
 
     def one(p: str) -> tlc.TLCResult:
-        return tlc.run_tlc("DistExec", cfg, env={"BATCH_FILE": p}, workers=workers,
+        return tlc.run_tlc("DistExec", cfg, env={"BATCH_FILE": p, **JVM}, workers=workers,
                            timeout=timeout, heap="3g")
     t0 = time.time()
     with ThreadPoolExecutor(max_workers=len(files)) as ex:
@@ -290,7 +295,7 @@ def counterexample(inst: dict, timeout: float = 300, cap: int = 4) -> str:
     one.pop("dump", None)
     with open(p, "w") as f:
         json.dump([one], f)
-    res = tlc.run_tlc("DistExec", "DistExecInv.cfg", env={"BATCH_FILE": p}, workers=1,
+    res = tlc.run_tlc("DistExec", "DistExecInv.cfg", env={"BATCH_FILE": p, **JVM}, workers=1,
                       timeout=timeout)
     os.unlink(p)
     i = res.out.find("Error:")
@@ -311,8 +316,8 @@ def liveness(insts: list[dict], timeout: float = 1500, shards: int | None = None
         files.append(p)
 
     def one(p: str) -> tlc.TLCResult:
-        return tlc.run_tlc("DistExec", "DistExecLive.cfg", env={"BATCH_FILE": p}, workers=2,
-                           timeout=timeout, heap="3g")
+        return tlc.run_tlc("DistExec", "DistExecLive.cfg", env={"BATCH_FILE": p, **JVM},
+                           workers=2, timeout=timeout, heap="3g")
     with ThreadPoolExecutor(max_workers=len(files)) as ex:
         results = list(ex.map(one, files))
     bad, nst = [], 0
@@ -343,12 +348,12 @@ def liveness(insts: list[dict], timeout: float = 1500, shards: int | None = None
 
 def validate_traces(recs: list[dict], timeout: float = 1500) -> tlc.Validation:
     return tlc.validate_records("DistTrace", "DistTrace.cfg", recs, timeout=timeout,
-                                shards=min(NCPU, max(1, len(recs) // 40)), heap="3g")
+                                shards=min(NCPU, max(1, len(recs) // 60)), heap="3g", env=JVM)
 
 
 def validate_partitions(recs: list[dict], timeout: float = 1500) -> tlc.Validation:
     return tlc.validate_records("DistPartition", "DistPartition.cfg", recs, timeout=timeout,
-                                shards=min(NCPU, max(1, len(recs) // 40)), heap="3g")
+                                shards=min(NCPU, max(1, len(recs) // 60)), heap="3g", env=JVM)
 
 
 def trace_records(results: list[dict]) -> list[dict]:
